@@ -315,7 +315,7 @@ def instances(tier):
 
 BOUNDS = {
     'quick': 'TT routines d=2 with grid sizes in {2,3,4} (exact algebraic cosines), TT-rank <= 2, symbolic box, coefficients, '
-             'evaluation point (inside / outside) and fill value; resampling to other grid sizes; exact integrals; '
+             'evaluation point (inside / outside) and fill value, batches mixing inside points with points above / below the box; resampling to other grid sizes; exact integrals; '
              'differentiation matrices n<=4, orders 1-2; dense routines d<=2 (symmetric and asymmetric boxes); '
              'func_int_general with n<=3 distinct symbolic nodes; transform/resampling inverse for arbitrary cores (cheb, sin)',
     'thorough': 'adds grid sizes 5 and 7, d=3, n=4 general',
